@@ -1,5 +1,5 @@
 (** C09 — Decoding cost is bounded: linear size, at most quadratic work. *)
-From DV Require Import Base.Bytes Label.Model Cost.Labels.
+From DV Require Import Base.Bytes Label.Model Cost.Labels V4.Model V6.Model Cost.Size.
 
 (** The domain-name decoder is where expansion could occur (compression
     pointers, unterminated chains, runs of empty names).  For EVERY byte
@@ -26,11 +26,28 @@ Theorem C09_names_work : forall b, main_steps (S (length b)) b 0 [] <= 257 * len
 Proof. exact labels_work. Qed.
 Print Assumptions C09_names_work.
 
-(** C09_partial: the allocation and retained-size bounds for whole DHCPv4 /
-    DHCPv6 messages (single-pass option loops, one copy of the remainder per
-    nesting level) are measured on the real code by the harness against the
-    explicit bound  size <= 300 n + 4096,  alloc <= 1500 n + depth n + 4096;
-    only the name decoder's bounds are theorems. *)
+(** Retained size of whole decoded values, for EVERY accepted byte string and
+    any nesting depth.  [osize]/[msg_size]/[size4] count the octets of every
+    field of the decoded value (byte strings by their length, numbers by their
+    wire width, names by their length plus one, the kept original bytes of a
+    label set once) plus four per option node. *)
+Theorem C09_v6_size : forall b m, dec_msg b = Ok m -> msg_size m <= 256 * length b.
+Proof. exact dec_msg_size. Qed.
+Print Assumptions C09_v6_size.
+
+Theorem C09_v6_option_size : forall f code data o, dec_opt f code data = Ok o -> osize o <= 260 + 256 * length data.
+Proof. exact dec_opt_size. Qed.
+Print Assumptions C09_v6_option_size.
+
+Theorem C09_v4_size : forall b p, dec4 b = Ok p -> size4 p <= length b.
+Proof. exact dec4_size. Qed.
+Print Assumptions C09_v4_size.
+
+(** C09_partial: what remains a measurement is the ALLOCATION of the Go code
+    (octets allocated while decoding and re-encoding, one copy of the remainder
+    per nesting level), checked by the harness against the explicit bound
+    alloc <= 1500 n + depth n + 4096 (and the deep size of the Go value against
+    300 n + 4096). *)
 Example C09_example_fan :
   match labels_from_bytes ([x01; x61; x00] ++ flat_map (fun _ => [xc0; x00]) (seq 0 40)) with
   | Ok ns => length ns = 41 | _ => False end.
